@@ -1362,19 +1362,25 @@ impl<T> TLengthProtocol for TCompactInputProtocol<T> {
         // field_begin_len.
         match field_type {
             TType::Bool => {
-                if self.pending_read_bool_field_identifier.is_some() {
-                    panic!(
-                        "should not have a pending bool while reading another bool with id: \
-                        {:?}",
-                        id,
-                    )
-                }
+                // On the reading side the value of a bool field is already known
+                // (it is part of the header that has just been read), so the
+                // header length is accounted for right here. The marker only
+                // tells a following `bool_len` that nothing is left to count;
+                // a decoder reads the value with `read_bool` and never calls
+                // `bool_len`, so `field_end_len` simply clears it.
+                let mut ax = 0;
+                read_field_header_len!(
+                    self,
+                    ax,
+                    TCompactType::BooleanTrue,
+                    id.expect("expecting a field id")
+                );
                 self.pending_read_bool_field_identifier = Some(TFieldIdentifier {
                     name: None,
                     field_type,
                     id,
                 });
-                0
+                ax
             }
             _ => {
                 let tc_field_type = TCompactType::try_from(field_type).unwrap(); // this should never happen
@@ -1386,7 +1392,7 @@ impl<T> TLengthProtocol for TCompactInputProtocol<T> {
     }
     #[inline]
     fn field_end_len(&mut self) -> usize {
-        self.assert_no_pending_bool_read();
+        self.pending_read_bool_field_identifier = None;
         0
     }
     #[inline]
@@ -1398,17 +1404,9 @@ impl<T> TLengthProtocol for TCompactInputProtocol<T> {
     #[inline]
     fn bool_len(&mut self, b: bool) -> usize {
         match self.pending_read_bool_field_identifier.take() {
-            Some(pending) => {
-                let field_id = pending.id.expect("bool field should have a field id");
-                let tc_field_type = if b {
-                    TCompactType::BooleanTrue
-                } else {
-                    TCompactType::BooleanFalse
-                };
-                let mut ax = 0;
-                read_field_header_len!(self, ax, tc_field_type, field_id);
-                ax
-            }
+            // the field header (which carries the value) was counted by
+            // `field_begin_len`
+            Some(_) => 0,
             None => self.byte_len(if b {
                 TCompactType::BooleanTrue as u8
             } else {
